@@ -49,6 +49,17 @@ CHECKS["C10"] = dict(
    text="Design level: for every program of the Linker families, every link order yields the same outcome and roots (so generation input is order-free). Code level: Linker-family programs are generated under forced link orders and natural map order, the repository's own test IDL under 4 option sets and seeded big multi-file programs (maps with >= 9 entries, map/set/struct constants, cross-file service inheritance) under 2, several times in each of 3-6 processes; the trace spec fixes the first (outcome, path->digest map, request digest) per input and rejects any later difference.",
    note="Trusted: sha256, Go's per-process hash seed as the source of map-order variation plus the link-order hook. Known finding C10-default-cast-while-linking.")
 
+CHECKS["C16"] = dict(
+   level="model_checking", ref="DESIGN.md section 5 (C16), Plugin.tla",
+   technique="TLA+ model of the plugin protocol (Plugin.tla: host with one goroutine per plugin and phase, plugin processes following fault scripts, one-slot pipes) model-checked by TLC over all script assignments and interleavings incl. liveness (negative control: unnamed goodbye failure); every script assignment replayed with a scripted fake plugin against the real host in-process and through the thriftrw binary; per-plugin event logs validated by C16Trace.tla",
+   text="TLC checks GenerateOnlyAfterGoodHandshake, ExactlyOneGoodbye, GoodbyeIsLast, AllClosedAllReaped, ExitCodeIffFailure, FailureNamesPlugin, WriteOnlyOnSuccess, the per-plugin protocol automaton, script-determined request sequences, NeverStuck and termination for 2 plugins x 6-9 handshake faults x 5-7 generate faults x 2-3 goodbye faults (and 3 plugins with reduced faults) under every interleaving. The same assignments drive harness/cmd/fakeplugin (hand-written frame/envelope reader) against internal/plugin (pipes and reaping observed) and against the real binary, plus truncation of reply frames at every byte offset, 1-byte writes and oversize length prefixes; TLC judges each run's logs, exit status and error text.",
+   note="Environment assumption: a plugin that leaves a frame incomplete closes stdout/exits (the host has no timeouts). Trusted: TLC, the fake plugin, process accounting of os/exec.")
+CHECKS["C17"] = dict(
+   level="model_checking", ref="DESIGN.md section 5 (C17), Generate.tla",
+   technique="TLA+ model of gen.Generate's accumulate-then-write structure with path shapes and a Clean table (Generate.tla; negative control: raw-string conflict detection) + Plugin.tla's WriteOnlyOnSuccess, model-checked by TLC; the real thriftrw binary run on layout cases and plugin path shapes with before/after listing of the sandbox; judged by C16Trace.tla's CLI predicates",
+   text="TLC checks Confined, ConflictIsError, AllOrNothing, NothingBeforeWritePhase and DeterministicOutput for every assignment of 10 path shapes to 2-3 plugins, with and without a failing module, over all module-walk, plugin-completion and write orders. The real binary is run on: k-th of n modules failing (n = 2..4, every k), nested directory layouts under default/explicit/too narrow thrift roots, no-recurse, nested output dirs (expected path sets computed from file locations alone), every pair of 11 plugin path shapes (relative, absolute, '..', '.', repeated separators, equal to a core path, equal to the other plugin's path) and plugin failures; the sandbox around the output directory is listed before and after each run.",
+   note="I/O failure during the write loop is outside the property's antecedent. Trusted: TLC, the fake plugin, file listing with sha256.")
+
 NOT_YET = {}
 
 def main():
